@@ -246,6 +246,32 @@ def structShape (c : ClassOpts) (defaults : List (String × PyVal)) (fields : Li
      | [] => .none)
   else classObj c defaults fields
 
+def isNoneF : FieldDecl → Bool
+  | .noneF => true
+  | _ => false
+
+/-- `len(fields) == 2 and fields[1].__class__ == NoneField` (with a first option that is not itself
+    a NoneField) -/
+def optShape : List FieldDecl → Bool
+  | [f, .noneF] => !isNoneF f
+  | _ => false
+
+/-- `AnyOf[X, None]` (`Optional[X]`) -/
+def isOptional : FieldDecl → Bool
+  | .anyOf fs => optShape fs
+  | _ => false
+
+def nullSchema : PyVal := .dict [kw "type" (.str "null")]
+
+/-- `_element_schema`: the schema of a field in ELEMENT position (array / tuple / set item, map value).
+    There an `Optional[X]` holding None is serialized as null (at class level a None attribute is not
+    serialized), so null is admitted next to X -/
+def elemWrap (f : FieldDecl) (s : PyVal) : PyVal :=
+  if isOptional f then (match s with
+    | .dict kvs => .dict [kw "anyOf" (.list [.dict kvs, nullSchema])]
+    | other => other)
+  else s
+
 mutual
 /-- `convert_to_schema(field)` -/
 def emit (fx : Bool) : FieldDecl → PyVal
@@ -257,15 +283,15 @@ def emit (fx : Bool) : FieldDecl → PyVal
   | .enumLit vs => .dict [kw "enum" (.list vs)]
   | .enumCls _ names => .dict [kw "enum" (.list (names.map PyVal.str))]
   | .seqAny _ sz => .dict (arrKws sz none none)
-  | .seqOf _ f sz => .dict (arrKws sz none (some (emit fx f)))
+  | .seqOf _ f sz => .dict (arrKws sz none (some (elemWrap f (emit fx f))))
   | .seqPos _ fs addl sz =>
-    .dict (arrKws sz (if addl then none else some (.bool false)) (some (.list (emitL fx fs))))
+    .dict (arrKws sz (if addl then none else some (.bool false)) (some (.list (emitLW fx fs))))
   | .setAny _ sz => .dict (setKws sz none)
-  | .setOf _ f sz => .dict (setKws sz (some (emit fx f)))
-  | .tupleOf f u => .dict (arrKws { uniq := u } none (some (emit fx f)))
-  | .tuplePos fs u => .dict (tupKws u (emitL fx fs))
+  | .setOf _ f sz => .dict (setKws sz (some (elemWrap f (emit fx f))))
+  | .tupleOf f u => .dict (arrKws { uniq := u } none (some (elemWrap f (emit fx f))))
+  | .tuplePos fs u => .dict (tupKws u (emitLW fx fs))
   | .mapAny sz => .dict (mapKws none none sz)
-  | .mapOf k v sz => .dict (mapKws (some k) (some (emit fx v)) sz)
+  | .mapOf k v sz => .dict (mapKws (some k) (some (elemWrap v (emit fx v))) sz)
   | .struct c fields defaults =>
     -- a nested structure is always exported as an object (`allow_field_wrapper=False`)
     if c.inline then retype (classObj c defaults (emitP fx fields)) else refTo c.name
@@ -280,21 +306,16 @@ def emitL (fx : Bool) : List FieldDecl → List PyVal
   | [] => []
   | f :: fs => emit fx f :: emitL fx fs
 termination_by structural fs => fs
+/-- the schemas of positional items (element position) -/
+def emitLW (fx : Bool) : List FieldDecl → List PyVal
+  | [] => []
+  | f :: fs => elemWrap f (emit fx f) :: emitLW fx fs
+termination_by structural fs => fs
 def emitP (fx : Bool) : List (String × FieldDecl) → List (String × PyVal)
   | [] => []
   | (n, f) :: ps => (n, emit fx f) :: emitP fx ps
 termination_by structural ps => ps
 end
-
-def isNoneF : FieldDecl → Bool
-  | .noneF => true
-  | _ => false
-
-/-- `len(fields) == 2 and fields[1].__class__ == NoneField` (with a first option that is not itself
-    a NoneField) -/
-def optShape : List FieldDecl → Bool
-  | [f, .noneF] => !isNoneF f
-  | _ => false
 
 mutual
 /-- the mapping raises for this field -/
